@@ -373,14 +373,17 @@ def classify(pid, deviations):
 
 # --------------------------------------------------------- evidence / verdict
 def write_evidence(pid, tier, seed, coverage, wall, violations, assumptions, extra=None):
-    os.makedirs(os.path.join(VERIF, 'evidence'), exist_ok=True)
+    # evidence/<id>.json describes runs against the repository under test; runs against a scratch copy (VERIF_REPO set by
+    # the mutation / benign / seeded-corpus tools) write next to the other scratch files instead
+    evdir = os.path.join(VERIF, 'evidence') if os.path.realpath(REPO) == os.path.realpath('/repo') else os.path.join(WORK, 'evidence-of-scratch-runs')
+    os.makedirs(evdir, exist_ok=True)
     ev = {'property_id': pid, 'tier': tier, 'seed': seed, 'level': 'exploration',
           'coverage': coverage, 'assumptions': assumptions, 'wall_s': round(wall, 2),
           'violations': violations}
     if extra:
         ev.update(extra)
-    path = os.path.join(VERIF, 'evidence', '%s.json' % pid)
-    tmp = path + '.tmp'
+    path = os.path.join(evdir, '%s.json' % pid)
+    tmp = path + '.%d.tmp' % os.getpid()
     with open(tmp, 'w') as f:
         json.dump(ev, f, indent=1, sort_keys=True)
         f.write('\n')
